@@ -4,9 +4,9 @@
    content theorems (c15_payload_unchanged, c15_classified_event, c15_kept_as_text, c15_text_is_concat_of_deltas,
    c15_text_delta_spec, c15_extractor_agrees) are about the executable classification `jclassify A` of
    Model/SseJson.v: serde_json::from_str as JsonParse.parse + `canon` (BTreeMap objects, number spelling), the
-   nesting bound, the event-name / type mismatch error and the text delta; `A : absfns` holds the three parts
-   that stay abstract (text of serde_json's error message, re-spelling of non-integer number tokens, schema
-   validation) and is universally quantified.  FIXED = the code after the two `fix:` commits for S11 (what
+   nesting bound, the id normalisation of the compat validation mode, the event-name / type mismatch error and the
+   text delta; `A : absfns` holds the validation mode and the parts that stay abstract (text of serde_json's error
+   message, re-spelling of non-integer number tokens, the two schema validators) and is universally quantified.  FIXED = the code after the two `fix:` commits for S11 (what
    /repo contains now), UNFIXED = the code before them. *)
 From RipV Require Import Base.Prelude Base.Utf8 Base.Json Model.Sse Model.SseJson Model.SseFacts.
 From RipV Require Import Proofs.Utf8Proofs Proofs.SseProofs Proofs.SseJsonProofs.
@@ -84,8 +84,8 @@ Theorem c15_classified_event :
   /\ JsonParse.parse (print v) = Some v
   /\ (json_depth v <= MAX_PAYLOAD_NESTING)%nat
   /\ dl = text_delta v
-  /\ errs = fst (a_validate A v) ++ name_mismatch ev v
-  /\ rerrs = snd (a_validate A v).
+  /\ errs = a_vstream A (validation_data A v) ++ name_mismatch ev v
+  /\ rerrs = response_errors A v.
 Proof. exact jclassify_event. Qed.
 Print Assumptions c15_classified_event.
 
